@@ -37,7 +37,9 @@ let zero_glu = { g_xsup = PNull; g_xsup_end = PNull; g_supno = PNull; g_xlsub = 
 let fuel = nat_of_int 200
 
 (* model-side classification, printed as comment lines (ignored by the comparison with the C harness) *)
-let count_retries (m : mem) = List.length (List.filter (function EvUserFree (_, _) -> true | EvSysFree _ -> true | _ -> false) m.m_log)
+(* a retry of p?gstrf_MemInit shows in the log as EvUserRestore (user space: stack.top1/used put back to retry_top1/retry_used;
+   before fix 'the retry loop gives back exactly what the last attempt took' it was one EvUserFree) or as EvSysFree (system space) *)
+let count_retries (m : mem) = List.length (List.filter (function EvUserFree (_, _) -> true | EvUserRestore (_, _) -> true | EvSysFree _ -> true | _ -> false) m.m_log)
 let live : (z * z) list ref = ref []
 
 let () =
